@@ -215,6 +215,11 @@ CONSTRUCTED = [
         {"op": "new_sp", "p": 0, "sp": {"a": 0}}, {"op": "new_sp", "p": 0, "sp": {"a": 1}}, {"op": "init", "h": 0}, {"op": "init", "h": 1},
         {"op": "sp_set", "h": 0, "k": "a", "v": 1}, {"op": "update_statepoint", "h": 1, "m": {"a": 2}, "overwrite": False},
         {"op": "update_statepoint", "h": 1, "m": {"c": 2}, "overwrite": False}, {"op": "plant_stray", "p": 0, "kind": 1, "n": 1, "file": False}]},
+    # clear() / reset() take nested payload along, not only the files at the top of the job directory
+    {"two_projects": False, "ops": [
+        {"op": "new_init", "p": 0, "sp": {"a": 0}}, {"op": "write", "h": 0, "name": "sub/h.txt", "data": "hello\n"},
+        {"op": "write", "h": 0, "name": "f.txt", "data": "x"}, {"op": "doc_set", "h": 0, "k": "x", "v": 1}, {"op": "clear", "h": 0},
+        {"op": "write", "h": 0, "name": "sub/._cache", "data": "c"}, {"op": "reset", "h": 0}, {"op": "touch_sp", "h": 0}]},
 ]
 
 
